@@ -35,12 +35,8 @@ func (f *Foto) GetLunar() *Lunar {
 }
 
 func (f *Foto) GetYear() int {
-	sy := f.lunar.GetSolar().GetYear()
-	y := sy - DEAD_YEAR
-	if sy == f.lunar.GetYear() {
-		y++
-	}
-	return y
+	// 佛历年与阴历年固定相差，与NewFoto互逆（阴历年可能超前或落后于阳历年）
+	return f.lunar.GetYear() - DEAD_YEAR + 1
 }
 
 func (f *Foto) GetMonth() int {
